@@ -38,6 +38,7 @@
 #include <sys/wait.h>
 #include <sys/mman.h>
 #include <sys/resource.h>
+#include <sys/time.h>
 
 #include "mp/solver.h"
 #include "mp/solver-app-base.h"
@@ -299,7 +300,7 @@ static void pin_freed(const char *stale) {
   if (!stale) return;
   for (size_t sz = 8; sz <= 256; sz += 8)
     for (int k = 0; k < 4; ++k) {
-      void *q = malloc(sz);
+      void *volatile q = malloc(sz);           // (volatile: an optimising compiler must not drop the allocation)
       if (q == (const void *)stale) return;   // now owned (and leaked) by the harness
     }
 }
@@ -374,6 +375,64 @@ static void run_app(const std::string &mode) {
 }
 #endif
 
+#ifdef C15_POLL
+// "P:<g>": a solver that POLLS the stop query in a call-free computation loop (the first interruption method documented
+// for mp::Interrupter), on the concrete handler object so that SignalHandler::Stop() is inlined; this harness variant is
+// compiled with -O2.  The signal arrives asynchronously (from an interval timer) while the loop spins; a watchdog ends the
+// case with "poll-timeout" if the loop is still spinning 400 ms later.  If a stop request is already pending the loop
+// would not spin at all: the signal is then raised synchronously.  Output: the delivery token, then "W(q=1)".
+static volatile int g_async_sig = 0;
+static volatile int g_alarms = 0;
+static void on_alarm(int) {
+  if (++g_alarms == 1) { raise(g_async_sig); return; }
+  emit("poll-timeout)");
+  _exit(92);
+}
+static void poll_step(int sig) {
+  if (!g_sh) { emit(" bad-op"); _exit(94); }
+  SignalHandler *sh = g_sh;
+  off_t from = cap_mark();
+  int ncb0 = g_ncb, nsc0 = g_nsigcalls;
+  char head[64];
+  snprintf(head, sizeof head, " !%c@%ld(", sig == SIGINT ? 'I' : 'T', (long)from);
+  emit(head);
+  if (sh->SignalHandler::Stop()) {
+    raise(sig);
+  } else {
+    struct sigaction sa;
+    memset(&sa, 0, sizeof sa);
+    sa.sa_handler = on_alarm;
+    sigemptyset(&sa.sa_mask);
+    sigaction(SIGALRM, &sa, 0);
+    g_async_sig = sig;
+    g_alarms = 0;
+    struct itimerval it;
+    it.it_value.tv_sec = 0; it.it_value.tv_usec = 2000;        // the interrupt, 2 ms into the loop
+    it.it_interval.tv_sec = 0; it.it_interval.tv_usec = 400000; // the watchdog, 400 ms later
+    setitimer(ITIMER_REAL, &it, 0);
+    volatile unsigned long iterations = 0;
+    while (!sh->SignalHandler::Stop())       // the solver's main loop: no calls, no I/O
+      iterations = iterations + 1;
+    memset(&it, 0, sizeof it);
+    setitimer(ITIMER_REAL, &it, 0);
+  }
+  std::string t = "brk=" + captured_since(from) + ",cb=";
+  if (g_ncb == ncb0) t += "-";
+  for (int i = ncb0; i < g_ncb; ++i)
+    t += (i > ncb0 ? "+" : "") + std::to_string(g_cblog[i][0]) + ":" + std::to_string(g_cblog[i][1]);
+  t += ",rearm=";
+  if (g_nsigcalls == nsc0) t += "-";
+  for (int i = nsc0; i < g_nsigcalls; ++i)
+    t += g_sigcalls[i] == SIGINT ? "I" : g_sigcalls[i] == SIGTERM ? "T" : "?";
+  t += ")" + state();
+  emit(t);
+  bool q = sh->SignalHandler::Stop();
+  ++g_step;
+  emit(std::string(" W(q=") + (q ? "1" : "0") + ")" + state());
+  deliver_due();
+}
+#endif
+
 // The real constructor stores `this` as the interrupter before the object pointer is known to the harness:
 // give state() the address early through placement construction.
 static void run_child(const std::string &mode, const std::vector<std::string> &prog) {
@@ -401,6 +460,10 @@ static void run_child(const std::string &mode, const std::vector<std::string> &p
       ++g_step;
       emit(std::string(" W(q=") + (q ? "1" : "0") + ")" + state());
       deliver_due();
+#ifdef C15_POLL
+    } else if (m.size() == 3 && m[0] == 'P') {
+      poll_step(m[2] == 'I' ? SIGINT : SIGTERM);
+#endif
     } else if (m.size() >= 5 && m[0] == 'N') {
       int h = 0, d = 0;
       if (sscanf(m.c_str(), "N:%d:%d", &h, &d) != 2 || h < 0 || h > 7 || d < 0 || d > 7 || g_sh) { emit(" bad-op"); _exit(94); }
@@ -493,6 +556,9 @@ int main(int argc, char **argv) {
         if (m == "C") { if (alive) bad = true; alive = true; nsteps += 7; }
         else if (m == "D") { if (!alive) bad = true; alive = false; nsteps += g_steps_per_dtor; }
         else if (m == "W") nsteps += 1;
+#ifdef C15_POLL
+        else if (m.size() == 3 && m[0] == 'P' && m[1] == ':' && (m[2] == 'I' || m[2] == 'T')) { if (!alive) bad = true; nsteps += 1; }
+#endif
         else if (m[0] == 'N') {
           int h = -1, d = -1, used = 0;
           if (sscanf(m.c_str(), "N:%d:%d%n", &h, &d, &used) != 2 || (size_t)used != m.size() ||
